@@ -1,5 +1,6 @@
 """C18 — PCA: input guards dominate the decomposition; the variance divisor derives from the training sample count."""
 from . import layout
+from . import c01
 from . import inplace
 from .core import RuleResult
 from .facts import fn_file, fn_key, fn_loc, walk, strip, peel_refs, Render
@@ -208,6 +209,45 @@ def rule_project(ctx):
 
 rule_memorder = layout.make_rule("R-C18-memorder", "raw memory-order buffers (as_slice_memory_order, into_raw_vec, as_ptr) of record matrices are used by position only behind an is_standard_layout() test", lambda f: f["d"]["krate"] == "linfa_reduction" and "pca" in fn_file(f), "linfa-reduction pca")
 
+def rule_ratio_paths(ctx):
+    """explained_variance_ratio is sigma^2 / sum(sigma^2) on every path: a path that returns a constant array (zeros under
+    an absolute-epsilon test of the sum, say) reports ratios that are not proportional to the explained variances and do
+    not sum to one - and squared singular values of data in a small unit are far below any absolute epsilon."""
+    from .c12 import value_paths, ingredients
+    res = RuleResult("R-C18-ratiopaths", "every value path of Pca::explained_variance_ratio is computed from the singular values")
+    F = ctx.facts()
+    fns = [f for f in F.all_fns() if f["d"]["krate"] == "linfa_reduction" and f["d"]["name"] == "explained_variance_ratio" and (f["d"].get("self_adt") or "").endswith("Pca")]
+    if not fns:
+        res.missing_anchor("Pca::explained_variance_ratio")
+    for fn in fns:
+        key = fn_key(fn)
+        paths = value_paths(fn)
+        res.instance("%s : %d value paths" % (key, len(paths)))
+        verdict = None
+        for e, guards in paths:
+            ing = ingredients(fn, e)
+            if "self.sigma" in ing or any(x.startswith("?") for x in ing):
+                continue
+            exact = False
+            for cnd, pol in guards[-1:]:
+                c0 = strip(cnd)
+                if c0.get("k") == "Binary" and c0["op"] == "==":
+                    for side in (c0["l"], c0["r"]):
+                        t = peel_refs(side)
+                        if t.get("k") == "Lit" and t.get("v", "").strip("0._f3264") == "":
+                            exact = True
+            verdict = ("undecided" if exact else "violation", e)
+            if not exact:
+                break
+        if verdict is None:
+            res.ok()
+        elif verdict[0] == "violation":
+            res.violate("%s : constant-ratio-path" % key, "a value path of explained_variance_ratio (`%s`) is not computed from the singular values: the reported ratios are then not proportional to the explained variances (and do not sum to one)" % Render(fn["crate"]).e(verdict[1])[:50], fn_loc(fn, verdict[1].get("ln")))
+        else:
+            res.undecided("%s : constant-path-under-zero-test" % key, "a constant path guarded by an exact-zero test of the sum", fn_loc(fn, verdict[1].get("ln")))
+    return res.finish(1)
+
+
 def rule_overwrite(ctx):
     """Pca::predict_inplace overwrites the caller's buffer: the projection does not depend on what the buffer held"""
     res = RuleResult("R-C18-overwrite", "Pca::predict_inplace writes the projection into the target without reading or accumulating into its previous content")
@@ -260,4 +300,4 @@ def rule_stale(ctx):
 
 
 def rules(tier):
-    return [rule_guard, rule_n, rule_project, rule_memorder, rule_overwrite, rule_stale]
+    return [rule_guard, rule_n, rule_project, rule_memorder, rule_overwrite, rule_stale, rule_ratio_paths, c01.rule_width]
